@@ -15,7 +15,8 @@
 (*             (a keysend call has two critical sections - KsInsert: the   *)
 (*             just-in-time AddInvoice, NotifyLocked: the update under the *)
 (*             registry lock - between which other calls may run)          *)
-(*   Replay    NotifyExitHopHtlc for a circuit key recorded on an invoice  *)
+(*   Replay    NotifyExitHopHtlc for a circuit key recorded on an invoice, *)
+(*             whatever the interceptor client answers to that call (ic)   *)
 (*   Settle    SettleHodlInvoice                                           *)
 (*   Cancel    CancelInvoice                                               *)
 (*   Tick      the clock advances by half an HtlcHoldDuration; the event   *)
@@ -40,6 +41,18 @@
 (* timeout) this gives hold / regular invoices that carry canceled shards  *)
 (* of an earlier incomplete set when a later complete set is accepted,     *)
 (* settled or canceled.                                                    *)
+(* The client's answer has a second field, AmountPaid (ma # 0): the        *)
+(* registry then evaluates and records the HTLC with THAT amount instead   *)
+(* of the amount on the wire (ctx.amtPaid is overwritten before the update *)
+(* callback; Eff).  Only the just-in-time keysend invoice, inserted by     *)
+(* processKeySend BEFORE the interceptor is asked, takes the wire amount   *)
+(* as its value.                                                           *)
+(* The interceptor is asked on EVERY call, also for a circuit key that is  *)
+(* already recorded on the invoice; there the update callback looks at the *)
+(* recorded HTLC first (resolveReplayedHtlc) and the client's answer - a   *)
+(* CancelSet as well as a modified amount - has no effect: Replay(c, ic)   *)
+(* is the same step for every answer ic ("a replayed HTLC gets the same    *)
+(* verdict as originally").                                                *)
 (*                                                                         *)
 (* Circuit keys: an HTLC is identified by the pair (short channel id,      *)
 (* HTLC id), two uint64.  The model names the keys of one behaviour 1..NC; *)
@@ -321,14 +334,16 @@ ApplyCancelHtlcs(i, p, k) ==
 
 (***************************************************************************)
 (* NotifyExitHopHtlc for a circuit key c that is on no invoice.            *)
-(* p = [c, pl, h, ad, amt, tot, exp, set, good, cs]                        *)
+(* p = [c, pl, h, ad, amt, tot, exp, set, good, cs, ma]                    *)
 (***************************************************************************)
 \* processKeySend (outside the registry lock): reject a bad keysend, else insert the just-in-time invoice
 KsBad(p) == p.pl = "keysend" /\ (~p.good \/ p.exp < height + RejectDelta)
 KsIns(p) == IF p.pl = "keysend" /\ ~KsBad(p) /\ ~inv[p.h].ex
               THEN [inv EXCEPT ![p.h] = [ex |-> TRUE, st |-> "open", paid |-> 0, val |-> p.amt]]
               ELSE inv
-\* notifyExitHopHtlcLocked (under the registry lock) on the invoice table i0
+\* the interceptor client's AmountPaid replaces the wire amount for everything the locked part does
+Eff(p) == IF p.ma # 0 THEN [p EXCEPT !.amt = p.ma] ELSE p
+\* notifyExitHopHtlcLocked (under the registry lock) on the invoice table i0 (p: after the interceptor, Eff)
 LockedOut(i0, p) ==
   LET k  == Target(i0, p)
       vd == IF p.pl \in {"legacy", "keysend"} THEN Legacy(i0, p, k) ELSE Mpp(i0, p, k)
@@ -339,10 +354,11 @@ LockedOut(i0, p) ==
      ELSE CASE vd.v = "fail" -> Same(i0, "fail", vd.why)
             [] vd.v = "cancelset" -> ApplyCancelSet(i0, p, k)
             [] vd.v = "add" -> IF IsAmp(k) THEN ApplyAddAmp(i0, p, k, vd) ELSE ApplyAdd(i0, p, k, vd)
-NotifyOut(p) == IF KsBad(p) THEN Same(inv, "fail", WKeysend) ELSE LockedOut(KsIns(p), p)
+NotifyOut(p) == IF KsBad(p) THEN Same(inv, "fail", WKeysend) ELSE LockedOut(KsIns(p), Eff(p))
 
-\* resolveReplayedHtlc + the same notification code
-ReplayOut(c) ==
+\* resolveReplayedHtlc + the same notification code.  ic = [cs, ma] is what the interceptor client answered
+\* to this call: the callback returns from resolveReplayedHtlc before it looks at it (ic occurs nowhere below)
+ReplayOut(c, ic) ==
   LET r == htlc[c]
       k == r.k
       S == {d \in sub : htlc[d].k = k /\ htlc[d].set = r.set /\ htlc[d].st = "settled"}
@@ -375,13 +391,13 @@ KsInsert(p) == /\ p.pl = "keysend" /\ ~KsBad(p)
                /\ last' = [a |-> "KsInsert", c |-> p.c, k |-> 0, res |-> "none", why |-> "", alt |-> "", hodl |-> NoMsgs]
                /\ UNCHANGED <<kinds, kp, htlc, sub, timer, setOwner, height, now>>
 NotifyLocked(p) == /\ p \in pend
-                   /\ Commit(LockedOut(inv, p), "Notify", p.c, 0)
+                   /\ Commit(LockedOut(inv, Eff(p)), "Notify", p.c, 0)
                    /\ pend' = pend \ {p}
                    /\ UNCHANGED <<height, now>>
 
-Replay(c) == /\ htlc[c] # NoHtlc
-             /\ Commit(ReplayOut(c), "Replay", c, 0)
-             /\ UNCHANGED <<height, now, pend>>
+Replay(c, ic) == /\ htlc[c] # NoHtlc
+                 /\ Commit(ReplayOut(c, ic), "Replay", c, 0)
+                 /\ UNCHANGED <<height, now, pend>>
 
 \* SettleHodlInvoice with the preimage of slot k
 SettleOut(k) ==
@@ -443,7 +459,7 @@ Exps(k) == {height + Need(k) + m - 1 : m \in Margins} \cup Expired
 ExpsAmp(k) == {height + Need(k) + m - 1 : m \in Margins \cap {0, 1}} \cup Expired
 HasKind(x) == kinds[1] = x \/ kinds[2] = x
 P(c, pl, h, ad, a, t, e, st, g) ==
-  [c |-> c, pl |-> pl, h |-> h, ad |-> ad, amt |-> a, tot |-> t, exp |-> e, set |-> st, good |-> g, cs |-> FALSE]
+  [c |-> c, pl |-> pl, h |-> h, ad |-> ad, amt |-> a, tot |-> t, exp |-> e, set |-> st, good |-> g, cs |-> FALSE, ma |-> 0]
 Params(c) ==
      \* legacy: no MPP record, no path id; with or without a total_amount_msat in the payload
      UNION {{P(c, "legacy", h, 0, a, t, e, "none", TRUE) : a \in Amts, t \in {0, V}, e \in Exps(h)} : h \in Inv}
@@ -472,10 +488,27 @@ CsParams(c) ==
                   : sa \in Sets \X {x \in Inv : Kind(x) # "keysend"}}
            ELSE {})
    \cup {P(c, "keysend", h, 0, V, 0, height + Need(h), "none", TRUE) : h \in {x \in Inv : Kind(x) = "keysend"}}}
+\* HTLCs for which the interceptor client answers with a modified amount: every amount of Amts in the place of
+\* a wire amount of V or (not for keysend) V - 1, for HTLCs that are otherwise acceptable (an unacceptable one
+\* fails as it does in Params unless the amount was its defect, and then it is the plain HTLC with the other
+\* amount; the wire amount itself is looked at by nothing but the value of a just-in-time keysend invoice)
+MaParams(c) ==
+  {[x EXCEPT !.ma = m] : x \in
+        {P(c, "legacy", h, 0, a, 0, height + Need(h), "none", TRUE) : a \in {V - 1, V}, h \in Inv}
+   \cup {P(c, "mpp", h, h, a, t, height + Need(h), "none", TRUE)
+           : a \in {V - 1, V}, t \in {V, V + 1}, h \in {x \in Inv : Kind(x) # "keysend"}}
+   \cup (IF HasKind("amp")
+           THEN {P(c, "amp", 0, sa[2], a, t, height + Need(sa[2]), sa[1], c \in Members(sa[1]))
+                  : a \in {V - 1, V}, t \in {V, V + 1}, sa \in Sets \X {x \in Inv : Kind(x) = "amp"}}
+           ELSE {})
+   \cup {P(c, "keysend", h, 0, V, 0, height + Need(h), "none", TRUE) : h \in {x \in Inv : Kind(x) = "keysend"}},
+   m \in Amts}
+\* the answers of the interceptor client to a call for a circuit key that is already recorded
+IcAnswers == {[cs |-> FALSE, ma |-> 0], [cs |-> TRUE, ma |-> 0], [cs |-> FALSE, ma |-> V + 1], [cs |-> TRUE, ma |-> V - 1]}
 
-Next == \/ \E c \in C : \E p \in Params(c) \cup CsParams(c) : Notify(p) \/ (pend = {} /\ KsInsert(p))
+Next == \/ \E c \in C : \E p \in Params(c) \cup CsParams(c) \cup MaParams(c) : Notify(p) \/ (pend = {} /\ KsInsert(p))
         \/ \E p \in pend : NotifyLocked(p)
-        \/ \E c \in C : Replay(c)
+        \/ \E c \in C : \E ic \in IcAnswers : Replay(c, ic)
         \/ \E k \in Inv : Settle(k) \/ Cancel(k)
         \/ Tick
         \/ Block
@@ -593,7 +626,13 @@ TypeOK == /\ \A k \in Inv : inv[k].st \in {"open", "accepted", "settled", "cance
 (*  O4  a keysend call is two critical sections: KsInsert / NotifyLocked.  *)
 (*  O5  the interceptor client's CancelSet is honoured on an open invoice  *)
 (*      only (otherwise the HTLC fails with "invoice no longer open") and  *)
-(*      is ignored for a replayed HTLC (Replay does not look at cs).       *)
+(*      is ignored for a replayed HTLC, like a modified amount (Replay     *)
+(*      takes the client's answer ic and does not look at it).             *)
+(*  O7  the interceptor client's AmountPaid is what the registry records   *)
+(*      and sums for the HTLC (Eff); SettledIsPaid is stated over the      *)
+(*      recorded amounts.  A keysend invoice keeps the wire amount as its  *)
+(*      value, so a keysend HTLC whose amount the client lowers fails with *)
+(*      "amount too low" against its own just-inserted invoice.            *)
 (*  O6  HTLC ids >= 2^63 (not reachable through a link, see KeyOf): the SQL*)
 (*      store writes int64(id) without a check (sqlInvoiceUpdater.AddHtlc) *)
 (*      and refuses to read a negative id back (unmarshalInvoiceHTLC:      *)
